@@ -245,3 +245,258 @@ func RunNotifyHeldOverJoin(seed int64, netv bool, backend Backend) *DirectedResu
 	}
 	return res
 }
+
+// buildRing creates a converged ring of n members with ids that leave room between neighbours.
+func buildRing(lab *Lab, rng *rand.Rand, n int, backend Backend) (ids []uint64, members []*Member, setup string) {
+	idset := map[uint64]bool{}
+	for len(ids) < n {
+		id := rng.Uint64() % M
+		if !idset[id] && !idset[id+1] && !idset[id-1] && !idset[id+2] && !idset[id-2] {
+			idset[id] = true
+			ids = append(ids, id)
+		}
+	}
+	order := append([]uint64{}, ids...)
+	sort.Slice(ids, func(i, j int) bool { return ids[i] < ids[j] })
+	for i, id := range order {
+		m, err := lab.Spawn(id, backend)
+		if err != nil {
+			return nil, nil, err.Error()
+		}
+		if i == 0 {
+			if err := m.Create(); err != nil {
+				return nil, nil, err.Error()
+			}
+		} else {
+			var jerr error
+			for a := 0; a < 10; a++ {
+				if jerr = m.Join(members[rng.Intn(len(members))]); jerr == nil {
+					break
+				}
+				time.Sleep(10 * time.Millisecond)
+			}
+			if jerr != nil {
+				lab.StopAll()
+				return nil, nil, "setup join: " + jerr.Error()
+			}
+		}
+		members = append(members, m)
+	}
+	if cv := lab.WaitConverged(int64(6*n+20), time.Minute, false); !cv.Converged {
+		lab.StopAll()
+		return nil, nil, "setup ring did not stabilise: " + cv.Diff
+	}
+	return ids, members, ""
+}
+
+func between(lo, hi uint64, rng *rand.Rand, lab *Lab) uint64 {
+	span := (hi + M - lo) % M
+	for {
+		id := (lo + 1 + rng.Uint64()%(span-1)) % M
+		if lab.Member(id) == nil {
+			return id
+		}
+	}
+}
+
+// RunJoinBehindDeparted: consecutive members P < L < S, with data in L's range. L leaves while the
+// periodic tasks are parked (its keys go to S, S still names L as predecessor). Then J joins right
+// behind the departed node, between L and S, asking S directly. Until S's predecessor pointer is
+// repaired the range to hand to J cannot be derived (L's former keys now belong to J as well), so
+// the join has to wait; once the ring is quiet every stored key must sit on its owner.
+func RunJoinBehindDeparted(seed int64, netv bool, backend Backend) *DirectedResult {
+	res := &DirectedResult{Name: "join-behind-departed", Windows: map[string]bool{}}
+	mode := Direct
+	if netv {
+		mode = NetV
+	}
+	lab := New(Options{Mode: mode, Seed: seed, MonitorPred: true, RecordEvents: true})
+	defer lab.Close()
+	rng := rand.New(rand.NewSource(seed))
+	n := 3 + rng.Intn(4)
+	ids, members, setup := buildRing(lab, rng, n, backend)
+	if setup != "" {
+		res.Setup = setup
+		return res
+	}
+	defer lab.StopAll()
+	at := rng.Intn(n)
+	P, L, S := lab.Member(ids[at]), lab.Member(ids[(at+1)%n]), lab.Member(ids[(at+2)%n])
+	res.logf("ring %v: P=%d L=%d S=%d", ids, P.ID, L.ID, S.ID)
+	// data everywhere, and certainly in L's range
+	ctx := context.Background()
+	inL := 0
+	for i := 0; i < 4000 && inL < 12; i++ {
+		k := fmt.Sprintf("jb-%d", i)
+		if chord.Between(P.ID, chord.Hash([]byte(k)), L.ID, true) || i < 40 {
+			if err := members[0].Node.Put(ctx, []byte(k), []byte("v")); err == nil && chord.Between(P.ID, chord.Hash([]byte(k)), L.ID, true) {
+				inL++
+			}
+		}
+	}
+	if inL == 0 {
+		res.Setup = "no key found in L's range"
+		return res
+	}
+	if !lab.FreezePeriodic(20 * time.Second) {
+		res.Setup = "periodic tasks could not be parked"
+		return res
+	}
+	L.Leave()
+	if L.State() != chord.Left {
+		res.Setup = "L did not leave: " + L.State().String()
+		return res
+	}
+	if id, ok := S.Node.VerifPredecessorID(); !ok || id != L.ID {
+		res.Setup = fmt.Sprintf("after L left, S names %d/%v instead of L", id, ok)
+		return res
+	}
+	res.Windows["S holds L's keys and still names the departed L"] = true
+	J, err := lab.Spawn(between(L.ID, S.ID, rng, lab), backend)
+	if err != nil {
+		res.Setup = err.Error()
+		return res
+	}
+	go func() { time.Sleep(time.Duration(5+rng.Intn(15)) * time.Millisecond); lab.Unfreeze() }()
+	var jerr error
+	for a := 0; a < 60; a++ {
+		if jerr = J.Join(S); jerr == nil || !chord.ErrorIsRetryable(jerr) {
+			break
+		}
+		time.Sleep(5 * time.Millisecond)
+	}
+	lab.Unfreeze()
+	res.logf("J=%d join through S: %v", J.ID, jerr)
+	if jerr != nil && !chord.ErrorIsRetryable(jerr) {
+		res.Findings = append(res.Findings, Finding{Key: "non-retryable-join-error:join-behind-departed", What: fmt.Sprintf("join of %d through %d right after %d left returned the non-retryable error %q", J.ID, S.ID, L.ID, jerr), Witness: map[string]any{"trace": res.Trace}})
+	}
+	if jerr == nil {
+		res.Windows["J joined behind the departed node"] = true
+	}
+	live := int64(len(lab.Live()))
+	if cv := lab.WaitConverged(6*live+20, 2*time.Minute, false); !cv.Converged {
+		res.Setup = "ring did not converge afterwards (C02's subject): " + cv.Diff
+		return res
+	}
+	var liveIDs []uint64
+	for _, m := range lab.Live() {
+		liveIDs = append(liveIDs, m.ID)
+	}
+	sort.Slice(liveIDs, func(i, j int) bool { return liveIDs[i] < liveIDs[j] })
+	bad := 0
+	for _, m := range lab.Live() {
+		keys, err := m.Node.VerifKV().RangeKeys(ctx, 0, 0)
+		if err != nil {
+			continue
+		}
+		for _, k := range keys {
+			if o := OwnerOf(liveIDs, chord.Hash(k)); o != m.ID {
+				bad++
+				if bad <= 3 {
+					res.Findings = append(res.Findings, Finding{Key: "key-outside-ownership-range:join-behind-departed", What: fmt.Sprintf("after L=%d left and J=%d joined right behind it through S=%d: node %d stores key %s (hash %d) whose owner in ring %v is %d", L.ID, J.ID, S.ID, m.ID, k, chord.Hash(k), liveIDs, o),
+						Witness: map[string]any{"trace": res.Trace, "ring": liveIDs, "P": P.ID, "L": L.ID, "S": S.ID, "J": J.ID}})
+				}
+			}
+		}
+	}
+	res.Windows["stores read after convergence"] = true
+	return res
+}
+
+// RunRefusedLeaveDuringJoin: consecutive members L < S (in id order, so that the leaver locks itself
+// first and then asks its successor). J joins between L and S and is held after S has granted it
+// the membership lock (S is Transferring) and before it releases it. Meanwhile L tries to leave: S
+// must refuse (it is taking part in J's join) — and must still be locked for J afterwards: only
+// the operation that obtained the lock releases it.
+func RunRefusedLeaveDuringJoin(seed int64, netv bool) *DirectedResult {
+	res := &DirectedResult{Name: "refused-leave-during-join", Windows: map[string]bool{}}
+	mode := Direct
+	if netv {
+		mode = NetV
+	}
+	lab := New(Options{Mode: mode, Seed: seed, RecordEvents: true})
+	defer lab.Close()
+	rng := rand.New(rand.NewSource(seed))
+	n := 3 + rng.Intn(4)
+	ids, _, setup := buildRing(lab, rng, n, Memory)
+	if setup != "" {
+		res.Setup = setup
+		return res
+	}
+	defer lab.StopAll()
+	at := rng.Intn(n - 1) // L = ids[at] < S = ids[at+1]: no wrap, leaver id below successor id
+	L, S := lab.Member(ids[at]), lab.Member(ids[at+1])
+	J, err := lab.Spawn(between(L.ID, S.ID, rng, lab), Memory)
+	if err != nil {
+		res.Setup = err.Error()
+		return res
+	}
+	res.logf("ring %v: L=%d S=%d J=%d", ids, L.ID, S.ID, J.ID)
+	hold := make(chan struct{})
+	var held atomic.Bool
+	lab.On("join.requested", func(_ string, node uint64) {
+		if node == J.ID && held.CompareAndSwap(false, true) {
+			select {
+			case <-hold:
+			case <-time.After(30 * time.Second):
+			}
+		}
+	})
+	jdone := make(chan error, 1)
+	go func() { jdone <- J.Join(S) }()
+	if !waitUntil(held.Load, 10*time.Second) {
+		close(hold)
+		res.Setup = "J's join did not reach the point after the lock grant"
+		<-jdone
+		return res
+	}
+	if S.State() != chord.Transferring {
+		close(hold)
+		res.Setup = "S is not Transferring while J holds its lock: " + S.State().String()
+		<-jdone
+		return res
+	}
+	res.Windows["S is locked by J's join"] = true
+	ldone := make(chan struct{})
+	go func() { L.Leave(); close(ldone) }()
+	// while J is held, S must stay locked, whatever L's attempts do
+	released := false
+	deadline := time.Now().Add(400 * time.Millisecond)
+	for time.Now().Before(deadline) {
+		if st := S.State(); st != chord.Transferring {
+			released = true
+			res.logf("S is %s while J's join still holds its lock", st)
+			break
+		}
+		select {
+		case <-ldone:
+			deadline = time.Now()
+		default:
+		}
+		time.Sleep(200 * time.Microsecond)
+	}
+	res.Windows["L attempted to leave while S was locked"] = true
+	if released {
+		res.Findings = append(res.Findings, Finding{Key: "membership-lock-released-by-non-holder", What: fmt.Sprintf("S=%d was granted to the join of J=%d and is %s again although J has not released it: the refused leave of L=%d unlocked it (a second join or leave can now run concurrently)", S.ID, J.ID, S.State(), L.ID),
+			Witness: map[string]any{"trace": res.Trace, "ring": ids, "L": L.ID, "S": S.ID, "J": J.ID, "S_history": fmt.Sprint(S.Node.VerifStateHistory())}})
+	}
+	close(hold)
+	select {
+	case jerr := <-jdone:
+		res.logf("J's join returned %v", jerr)
+	case <-time.After(60 * time.Second):
+		res.Setup = "J's join did not return"
+		return res
+	}
+	select {
+	case <-ldone:
+	case <-time.After(60 * time.Second):
+		res.Setup = "L's leave did not return"
+		return res
+	}
+	live := int64(len(lab.Live()))
+	if cv := lab.WaitConverged(6*live+20, 2*time.Minute, false); !cv.Converged && !cv.Watchdog {
+		res.Findings = append(res.Findings, Finding{Key: "not-serving-after-contention:directed", What: "after the held join and the refused leave the ring did not return to serving: " + cv.Diff, Witness: map[string]any{"trace": res.Trace}})
+	}
+	return res
+}
